@@ -282,6 +282,7 @@ def check(ctx):
     check_gene_list(ctx)
     from ..rules.forwarding import check_forwarding
     check_forwarding(ctx, {'taxonomy_tree', 'precomputed_stats_path', 'normalization'})
+    check_reconciliation_by_presence_only(ctx)
 
 
 # ----------------------------------------------------------------------
@@ -526,3 +527,45 @@ def check_count_denominators(ctx):
             k += 1
     if n < 3:
         raise AnalysisError(f'only {n} divisions by a cell count found')
+
+
+def check_reconciliation_by_presence_only(
+        ctx, rule='R-AGREE/reconcile-by-presence'):
+    """the query-marker stage writes a group for every parent of the tree;
+    for a parent with a single child (the root of a tree with one top node
+    included) that group is *empty*, because no choice is made there.  The
+    pre-flight reconciliation of the mapping stage therefore decides by the
+    presence of a group alone: it never opens one (`markers[grp]`) to
+    judge its content.  A test of the content rejects the cache the
+    previous stage has just written."""
+    fi = ctx.db.fn('type_assignment.utils:reconcile_taxonomy_and_markers')
+    handles = set()
+    for w in ast.walk(fi.node):
+        if isinstance(w, ast.With):
+            for it in w.items:
+                if isinstance(it.optional_vars, ast.Name) and isinstance(
+                        it.context_expr, ast.Call) and getattr(
+                            it.context_expr.func, 'attr', None) == 'File':
+                    handles.add(it.optional_vars.id)
+    if not handles:
+        raise AnalysisError(f'{fi.qual}: the marker cache is not opened')
+    opened = [x for x in ast.walk(fi.node)
+              if isinstance(x, ast.Subscript) and isinstance(
+                  x.value, ast.Name) and x.value.id in handles
+              and isinstance(x.ctx, ast.Load)]
+    tests = [x for x in ast.walk(fi.node)
+             if isinstance(x, ast.Compare) and len(x.ops) == 1
+             and isinstance(x.ops[0], (ast.In, ast.NotIn))
+             and isinstance(x.comparators[0], ast.Name)
+             and x.comparators[0].id in handles]
+    ctx.touch(fi)
+    ok = not opened and bool(tests)
+    ctx.ob(rule, f'{fi.qual}:groups', fi.loc(opened[0] if opened
+                                              else fi.node), ok,
+           f'{len(tests)} presence test(s), no group is opened' if ok else (
+               f'`{unparse(opened[0])[:40]}` opens a group of the marker '
+               'cache in the reconciliation: its content is judged, and an '
+               'empty group -- what the writer stores for a parent with a '
+               'single child, the root included -- counts as missing'
+               if opened else 'no presence test of a group was found'))
+    return 1
